@@ -14,7 +14,7 @@ from sv.engine.xh import assume, check, choose, concrete, native
 from sv.ref import cells, docs
 from sv.ref import pitch as rp
 from sv.ref import spinepath as sp
-from sv.ref.cells import Bar, Chord, Doc, Header as H, Note, Null, Op, Rest
+from sv.ref.cells import FieldComment, Bar, Chord, Doc, Header as H, Note, Null, Op, Rest
 from sv.ref.docs import sig, lyr, dyn
 
 import kernpy as kp
@@ -43,6 +43,8 @@ def _docs():
                   [Note('4', pitch='c', acc='#', decs=((3, 'L'),)), lyr('la'), Note('2', dots=1, pitch='GG')],
                   [Chord((Note('8', pitch='e'), Note('8', pitch='g', acc='-', decs=((3, 'J'),)))), Null('.'), Rest('4', decs=((3, ';'),))],
                   [Null('.'), lyr('li'), Null('.')],
+                  # local comments confined to one spine ('!' is the empty local comment: a cell like any other, not a null token)
+                  [FieldComment('!x'), FieldComment('!'), FieldComment('!')], [FieldComment('!'), FieldComment('!'), FieldComment('!z')],
                   [Bar(double=True), Bar(double=True), Bar(double=True)], [Op(T), Op(T), Op(T)]]))
     D.append(Doc([[H('**dynam'), H('**kern')], [Null('*'), sig('*clefC3', 'CLEF')], [dyn('f'), Note('16', mark='q', pitch='b', acc='-')],
                   [Null('*'), Op('*^')], [dyn('p'), Note('4', pitch='a', decs=((0, '('),)), Note('4', pitch='F')],
